@@ -314,7 +314,8 @@ class C19(DiffProperty):
             "decimal, non-finite values as class (nan/+inf/-inf; -0 printed as 0). I against S (denoted sequence + cursor): result classes "
             "(value/none/error; advance more/end/refused; reset ok; clone offered; consume ok+value/refused; walk count+end+values) exactly; for "
             "linear sources with finite bounds every value must additionally lie within 4 ulp (binary64, ulp taken at |a|+|b|) of the exact "
-            "rational closed form a + i*(b-a)/n computed by the specification. A case is non-trivial when it runs at least one call.")
+            "rational closed form a + i*(b-a)/n computed by the specification (applied where b-a does not overflow and the exact step "
+            "(b-a)/n is zero or a normal binary64 number). A case is non-trivial when it runs at least one call.")
     modelled = ("mptplot/values/{iterator_linear,iterator_factor,iterator_boundary,iterator_poly,iterator_values,iterator_create,"
                 "iterator_profile,values_linear,values_bound}.c, mptcore/meta/iterator_string.c (conversions to double and string), "
                 "mptcore/array/meta_buffer.c + slice_next.c for 'c' arrays, mptcore/types/iterator_consume.c (target 'd'), "
@@ -335,7 +336,7 @@ class C19(DiffProperty):
     level_note = "see docs/notes_C19.md"
     technique = "Coq proof (state machines refine a cursor over the denoted sequence) + differential correspondence check with exact binary64 model"
     assumptions = ["malloc succeeds", "texts contain no byte >= 0x80 (the C code passes plain char to isspace)",
-                   "|b-a| does not overflow binary64 where the closed form is compared"]
+                   "|b-a| does not overflow binary64 and (b-a)/n is not subnormal where the closed form is compared"]
 
     # ---- case structure
     def split(self, case):
@@ -444,7 +445,18 @@ class C19(DiffProperty):
         return cl
 
     # ---- shrinking: drop calls, then shorten the text (the oracle is recomputed)
+    def shrink(self, case, kind, workdir, budget=12):
+        return DiffProperty.shrink(self, case, kind, workdir, budget=8)
+
     def shrink_candidates(self, case):
+        n = 0
+        for c in self._shrink_candidates(case):
+            yield c
+            n += 1
+            if n >= 150:
+                return
+
+    def _shrink_candidates(self, case):
         hdr, ops = self.split(case)
         flat = [o[0] for o in ops]
         for k in range(len(flat)):
